@@ -5,6 +5,8 @@
    speaks about the file system, the accept callback, the channel, the connect result or msg_process comes from
    lexec / admission_ops / teardown_ops / connect_result. *)
 let variant = if Sys.getenv_opt "C05_VARIANT" = Some "fixed" then Fixed else AsFound
+(* C05_INJECT = "filtered": the tree drops request datagrams that the connection's peer did not send *)
+let filtered = Sys.getenv_opt "C05_INJECT" = Some "filtered"
 
 let n_of_int i = Z.to_N (z_of_int i)
 let int_of_n x = int_of_z (Z.of_N x)
@@ -21,10 +23,12 @@ type slot = {
   mutable connected : bool;           (* client library connected *)
   mutable established : bool;         (* server side connection exists *)
   mutable pending_sends : int;
+  mutable pending_foreign : int;
+  mutable ctl_sent : int;
 }
 let fresh_slot () = { started = false; real = { c_uid = Z0; c_gid = Z0 }; eff = { c_uid = Z0; c_gid = Z0 }; raw = false;
                       kacc = false; authed = false; peer = None; ord = -1; alive = false; client_up = false;
-                      finned = false; connected = false; established = false; pending_sends = 0 }
+                      finned = false; connected = false; established = false; pending_sends = 0; pending_foreign = 0; ctl_sent = 0 }
 
 let maxs = 8
 let slots = Array.init maxs (fun _ -> fresh_slot ())
@@ -85,8 +89,36 @@ let exec_op k o =
    | LAccept (u, g) -> pr "cb accept %d %s %s" k (string_of_z u) (string_of_z g)
    | LRespond _ -> ()
    | LChanAdd | LChanDel -> ()
-   | LPeerSend -> if List.length s'.l_log > List.length s.l_log then pr "cb msg %d" k
+   | LPeerSend | LForeign (_, _) -> if List.length s'.l_log > List.length s.l_log then pr "cb msg %d" k
    | LCb c -> pr "cb %s %d" (cbname c) k)
+
+let deliver sl =
+  if !tr = Shm then begin
+    for _ = 1 to sl.pending_sends do exec_op sl.ord LPeerSend done;
+    for _ = 1 to sl.pending_foreign do exec_op sl.ord (LForeign (!tr, filtered)) done
+  end else begin
+    (* socket transport, lab bookkeeping: the server handles as many datagrams per look as the shared counter
+       ctl->sent says (at least one); the counter is incremented by the peer's library on every send and
+       decremented on every datagram the server takes.  A foreign datagram that gets through is taken like any
+       other but was never counted, so afterwards the counter is one short; a dropped one is not counted. *)
+    let own = ref sl.pending_sends and foreign = ref sl.pending_foreign in
+    if filtered then begin
+      for _ = 1 to !foreign do exec_op sl.ord (LForeign (!tr, true)) done; foreign := 0
+    end;
+    let avail = ref sl.ctl_sent in
+    let go = ref true in
+    while !go do
+      (* datagrams are taken in arrival order; the generator queues foreign ones before the peer's own *)
+      if !foreign > 0 then begin
+        exec_op sl.ord (LForeign (!tr, false)); decr foreign; sl.ctl_sent <- sl.ctl_sent - 1; decr avail
+      end else if !own > 0 then begin
+        exec_op sl.ord LPeerSend; decr own; sl.ctl_sent <- sl.ctl_sent - 1; decr avail
+      end else go := false;
+      if !avail <= 0 then go := false
+    done;
+    sl.pending_sends <- !own; sl.pending_foreign <- !foreign
+  end;
+  if !tr = Shm then begin sl.pending_sends <- 0; sl.pending_foreign <- 0 end
 
 let look_at sl =
   (* one server look at the slot's connection *)
@@ -94,17 +126,17 @@ let look_at sl =
     if not sl.client_up then begin
       (* socket transport: the request socket is looked at before the setup socket reports the hang-up, so what
          is queued there is still delivered; shm: the hang-up on the one descriptor comes first *)
-      if !tr = Sock then for _ = 1 to sl.pending_sends do exec_op sl.ord LPeerSend done;
+      if !tr = Sock then deliver sl;
       List.iter (exec_op sl.ord) (teardown_ops !tr);
-      sl.established <- false; sl.pending_sends <- 0
-    end else begin
-      for _ = 1 to sl.pending_sends do exec_op sl.ord LPeerSend done;
-      sl.pending_sends <- 0
-    end
+      sl.established <- false; sl.pending_sends <- 0; sl.pending_foreign <- 0
+    end else deliver sl
   end else begin
-    (* no channel: whatever the peer sent goes nowhere *)
-    if sl.ord >= 0 then for _ = 1 to sl.pending_sends do exec_op sl.ord LPeerSend done;
-    sl.pending_sends <- 0
+    (* no channel: whatever was sent goes nowhere *)
+    if sl.ord >= 0 then begin
+      for _ = 1 to sl.pending_sends do exec_op sl.ord LPeerSend done;
+      for _ = 1 to sl.pending_foreign do exec_op sl.ord (LForeign (!tr, filtered)) done
+    end;
+    sl.pending_sends <- 0; sl.pending_foreign <- 0
   end
 
 let cred_of a b = { c_uid = z_of_string a; c_gid = z_of_string b }
@@ -139,7 +171,9 @@ let () =
             (match !pend with
              | [] -> pr "r none-pending"
              | i :: r -> pend := r; slots.(i).kacc <- true)
-          | ["auth"; s] ->
+          | ["auth"; s] | ["t"; s] when (let sl = slots.(int_of_string s) in sl.started && sl.kacc && not sl.authed)
+                                     || List.hd rest = "auth" ->
+            (* the server looks at the slot's descriptors: a pending handshake is answered (whatever the op is called) *)
             let sl = slots.(int_of_string s) in
             if sl.started && sl.kacc && not sl.authed then begin
               sl.authed <- true;
@@ -175,7 +209,9 @@ let () =
             else begin
               let ok = if sl.raw then sl.established || not sl.authed
                 else sl.connected && sl.established in
-              if ok && not sl.raw then sl.pending_sends <- sl.pending_sends + 1;
+              if ok && not sl.raw then begin
+                sl.pending_sends <- sl.pending_sends + 1; sl.ctl_sent <- sl.ctl_sent + 1
+              end;
               pr "sent %d %s" i (if ok then "ok" else "fail")
             end
           | ["t"; s] -> look_at slots.(int_of_string s); pr "chan %d" (chan_count ())
@@ -190,7 +226,7 @@ let () =
             let sa = slots.(i) and sb = slots.(int_of_string b) in
             if not sa.alive then pr "injected %d dead" i
             else if !tr = Sock && sb.established then begin
-              sb.pending_sends <- sb.pending_sends + 1; pr "injected %d ok" i
+              sb.pending_foreign <- sb.pending_foreign + 1; pr "injected %d ok" i
             end else pr "injected %d none" i
           | ["kill"; s] ->
             let sl = slots.(int_of_string s) in
